@@ -94,3 +94,11 @@ reg('C02', 'exploration',
     'variable values (100..999 / 1000..5000 characters, text and bytes) must be refused while the longest representable '
     'value still encodes. Held on the executions produced.',
     'Trusts vmon/ref/codec.py (validated at setup against the wire images pinned by the repository tests), python codecs, re, strptime.')
+
+reg('C12', 'exploration',
+    'runtime monitor: carrier values inside real dumps output (read by the reference decoder) compared with a reference greedy packer; PDS entries returned by real loads compared with the input set',
+    'Boundary sweep enumerated completely in both tiers (first value length 940..992 x second 0..60 x third absent/0/1/30: the '
+    'running carrier length crosses 985..1005 at every position), exact 999 fills, zero-length values, digit-only values that '
+    'look like headers, sets needing exactly 1..5 carriers, seeded sets of up to 60 tags in shuffled insertion order, generated '
+    'configurations with other carrier bits, latin_1 and EBCDIC. Held on the executions produced.',
+    'Trusts vmon/ref/codec.py (pack_pds, lenient decoder). PDS sets exceeding the configured carriers are outside the statement.')
